@@ -433,6 +433,19 @@ pub fn run_check(prop: &dyn Prop, env: &CheckEnv) -> i32 {
         if let Some(k) = known.iter().find(|k| k.status == "known" && k.property == prop.id() && &k.class == class) {
             println!("KNOWN-FINDING: property={} {} {} (met {} times)", prop.id(), class, k.what, list.len());
             known_met.push(class.clone());
+            // maintainer tool (never during a registered check): write a minimised replay backing the finding
+            if std::env::var("RBPSIM_WRITE_FINDINGS").is_ok() {
+                let (scn, v) = &list[0];
+                let wd = Workdir::new(&ctx, 1001);
+                let mut small = scn.clone();
+                small.class = Some(class.clone());
+                small.detail = Some(v.detail.clone());
+                small = crate::shrink::shrink(prop, &ctx, &wd, small, class);
+                let dir = env.verif.join("findings");
+                let _ = std::fs::create_dir_all(&dir);
+                let name = class.replace('/', "_");
+                std::fs::write(dir.join(format!("{}.json", name)), serde_json::to_string_pretty(&small).unwrap()).expect("write finding");
+            }
             continue;
         }
         n_viol += list.len() as u64;
